@@ -326,6 +326,46 @@ func runC01(c *Collector, r *Rng, thorough bool) {
 				}
 			}
 
+			// --- registered parameters that section 3.1 does not govern, in the Go spellings an application has at hand
+			// (a certificate chain as [][]byte straight from tls.Certificate, one certificate or several; []any; CWT
+			// claims as a typed or a plain map), in either bucket: signed, serialised, parsed back, verified ---
+			if i < 2 {
+				cert := []byte{0x30, 0x03, 1, 2, 3}
+				for vi, pv := range []struct {
+					label int64
+					val   any
+				}{
+					{33, cert}, {33, [][]byte{cert}}, {33, [][]byte{cert, cert}}, {33, []any{cert}}, {33, []any{cert, cert}},
+					{32, [][]byte{cert}}, {32, []any{cert, cert, cert}}, {34, []any{int64(-16), make([]byte, 32)}}, {35, "https://example.org/c"},
+					{15, cose.CWTClaims{int64(1): "iss", int64(4): int64(1700000000), int64(5): int64(4102444800), int64(6): 1.5e9}}, {15, map[any]any{int64(2): "sub"}},
+					{13, map[any]any{int64(1): int64(2)}}, {10, []byte{1}}, {-70040, [][]byte{{1}, {2}}}, {-70041, []string{"a", "b"}}, {-70042, []int64{1, 2}},
+				} {
+					for _, inProtected := range []bool{true, false} {
+						h := cose.Headers{Protected: cose.ProtectedHeader{cose.HeaderLabelAlgorithm: k.alg}, Unprotected: cose.UnprotectedHeader{}}
+						if inProtected {
+							h.Protected[pv.label] = pv.val
+						} else {
+							h.Unprotected[pv.label] = pv.val
+						}
+						xm := &cose.Sign1Message{Headers: h, Payload: payload}
+						if err := xm.Sign(r, ext, signer); err != nil {
+							continue
+						}
+						xb, err := xm.MarshalCBOR()
+						if err != nil {
+							continue
+						}
+						c.Eval("sign1-ungoverned-parameter/"+k.alg.String(), fmt.Sprint(vi, inProtected, i), true)
+						prep := map[string]any{"alg": k.alg.String(), "key": k.name, "label": pv.label, "value": fmt.Sprintf("%T", pv.val), "protected": inProtected, "data": hx(trimTo(xb, 300))}
+						var back cose.Sign1Message
+						if err := back.UnmarshalCBOR(xb); err != nil {
+							fail("sign1-own-output-not-decodable", fmt.Sprintf("a signed message carrying parameter %d as %T was serialised but cannot be parsed back: %v", pv.label, pv.val, err), prep)
+						} else if err := back.Verify(ext, verifier); err != nil {
+							fail("sign1-wire", fmt.Sprintf("a signed message carrying parameter %d as %T does not verify after a wire round trip: %v", pv.label, pv.val, err), prep)
+						}
+					}
+				}
+			}
 			// --- COSE_Sign whose body protected bucket carries an alg of its own (RFC 9052: alg = int / tstr; nothing
 			// checks the body's alg when signing): text identifiers, private-use and unregistered integers ---
 			if i < 2 {
@@ -804,6 +844,10 @@ func runC07(c *Collector, r *Rng, thorough bool) {
 			[2]*W{wInt(14, -1), wMap(-1, wInt(1, -1), wTstr("iss", -1))},
 			[2]*W{wInt(8, -1), wMap(-1, wInt(1, -1), wInt(2, -1))},
 			[2]*W{wInt(10, -1), wBstr([]byte{1}, -1)},
+			// values that Go sees as nil, false, zero or empty: present all the same
+			[2]*W{wInt(-70001, -1), wNull()}, [2]*W{wInt(-70001, -1), wUndef()}, [2]*W{wInt(-70001, -1), wBool(false)}, [2]*W{wInt(-70001, -1), wInt(0, -1)},
+			[2]*W{wInt(-70001, -1), wBstr(nil, -1)}, [2]*W{wInt(-70001, -1), wTstr("", -1)}, [2]*W{wInt(-70001, -1), wArr(-1)}, [2]*W{wInt(-70001, -1), wMap(-1)},
+			[2]*W{wTstr("ext", -1), wNull()}, [2]*W{wInt(10, -1), wNull()},
 		)
 		ext := []byte("e")
 		pl := []byte("payload")
@@ -813,6 +857,9 @@ func runC07(c *Collector, r *Rng, thorough bool) {
 				ukv := []*W{}
 				if inProtected {
 					pkv = append(pkv, prm[0].Clone(), prm[1].Clone())
+					if !(prm[0].Maj == 0 && prm[0].Val < 17) { // not a parameter the base rules already know: mark it critical
+						pkv = append(pkv, wInt(2, -1), wArr(-1, prm[0].Clone()))
+					}
 				} else {
 					ukv = append(ukv, prm[0].Clone(), prm[1].Clone())
 				}
@@ -841,6 +888,44 @@ func runC07(c *Collector, r *Rng, thorough bool) {
 					c.Fail("C07/rejected", "conforming COSE_Sign refused: "+dm.err.Error(), rep2)
 				} else if err := dm.sm.Verify(ext, k.verifier()); err != nil {
 					c.Fail("C07/verify", "COSE_Sign signed by an independent implementation does not verify: "+err.Error(), rep2)
+				}
+			}
+		}
+	}
+	// deterministic part: alg = int / tstr. A COSE_Sign whose body bucket names an algorithm as text (or as an integer no
+	// key here has) while its signers name theirs; a COSE_Sign1 with a text alg that carries a countersignature: decoded,
+	// the signer / the countersignature verified
+	for _, k := range []realKey{keys[0], keys[3]} {
+		ext := []byte("e")
+		pl := []byte("payload")
+		for bi, bodyAlg := range []*W{wTstr("X-composite", -1), wTstr("ES256", -1), wTstr("", -1), wInt(-65537, -1), wInt(-260, -1)} {
+			bcontent := wMap(-1, wInt(1, -1), bodyAlg.Clone()).Ser()
+			scontent := wMap(-1, wInt(1, -1), wInt(int64(k.alg), -1)).Ser()
+			ssig := refSign(r, k, refArray(refTstr("Signature"), refBstr(bcontent), refBstr(scontent), refBstr(ext), refBstr(pl)))
+			mdata := wTag(98, -1, wArr(-1, wBstr(bcontent, -1), wMap(-1), wBstr(pl, -1), wArr(-1, wArr(-1, wBstr(scontent, -1), wMap(-1), wBstr(ssig, -1))))).Ser()
+			dm := decodeCase(c, "conforming/body-alg/DSignMsg", "DSignMsg", mdata)
+			rep := map[string]any{"alg": k.alg.String(), "data": hx(mdata), "body_alg": hx(bodyAlg.Ser())}
+			c.Eval("body-alg/signmsg", fmt.Sprint(k.name, bi), true)
+			if !dm.paniced {
+				if dm.err != nil {
+					c.Fail("C07/rejected", "conforming COSE_Sign (body alg of its own) refused: "+dm.err.Error(), rep)
+				} else if err := dm.sm.Verify(ext, k.verifier()); err != nil {
+					c.Fail("C07/verify", "COSE_Sign (body alg of its own) signed by an independent implementation does not verify: "+err.Error(), rep)
+				}
+			}
+			// a COSE_Sign1 under that alg (not verifiable with the keys at hand) carrying a countersignature that is
+			psig := []byte{1, 2, 3}
+			csig := refSign(r, k, refArray(refTstr("CounterSignatureV2"), refBstr(bcontent), refBstr(scontent), refBstr(ext), refBstr(pl), refArray(refBstr(psig))))
+			sdata := wTag(18, -1, wArr(-1, wBstr(bcontent, -1), wMap(-1, wInt(11, -1), wArr(-1, wBstr(scontent, -1), wMap(-1), wBstr(csig, -1))), wBstr(pl, -1), wBstr(psig, -1))).Ser()
+			d1 := decodeCase(c, "conforming/body-alg/DSign1", "DSign1", sdata)
+			rep1 := map[string]any{"alg": k.alg.String(), "data": hx(sdata), "parent_alg": hx(bodyAlg.Ser())}
+			if !d1.paniced {
+				if d1.err != nil {
+					c.Fail("C07/rejected", "conforming COSE_Sign1 (alg no key here has, countersigned) refused: "+d1.err.Error(), rep1)
+				} else if cs, ok := d1.s1.Headers.Unprotected[int64(11)].(*cose.Countersignature); !ok {
+					c.Fail("C07/countersig-shape", "the nested countersignature was not decoded as one", rep1)
+				} else if err := cs.Verify(k.verifier(), d1.s1, ext); err != nil {
+					c.Fail("C07/countersig-verify", "countersignature by an independent implementation does not verify against the decoded parent: "+err.Error(), rep1)
 				}
 			}
 		}
@@ -1153,6 +1238,34 @@ func c03AllKeys(c *Collector, r *Rng) {
 		}
 		if len(valid) == 0 {
 			continue
+		}
+		// one holder decoded twice: first a valid message, then the same message with its payload detached (nil on the
+		// wire) - nothing is left to verify against, and nothing of the first message stands in
+		{
+			pcontent := wMap(-1, wInt(1, -1), wInt(int64(k.alg), -1)).Ser()
+			pl := []byte("attached payload")
+			sig := refSign(r, k, refArray(refTstr("Signature1"), refBstr(pcontent), refBstr(nil), refBstr(pl)))
+			full := wTag(18, -1, wArr(-1, wBstr(pcontent, -1), wMap(-1), wBstr(pl, -1), wBstr(sig, -1))).Ser()
+			detached := wTag(18, -1, wArr(-1, wBstr(pcontent, -1), wMap(-1), wNull(), wBstr(sig, -1))).Ser()
+			for _, tagged := range []bool{true, false} {
+				var holder cose.Sign1Message
+				dec := holder.UnmarshalCBOR
+				f, d := full, detached
+				if !tagged {
+					dec = (*cose.UntaggedSign1Message)(&holder).UnmarshalCBOR
+					f, d = full[1:], detached[1:]
+				}
+				if dec(f) != nil || holder.Verify(nil, vf) != nil {
+					continue
+				}
+				c.Eval("holder-reused-for-detached/"+k.name, fmt.Sprint(tagged), true)
+				if err := dec(d); err != nil {
+					continue
+				}
+				if err := holder.Verify(nil, vf); err == nil || holder.Payload != nil {
+					c.Fail("C03/verdict", fmt.Sprintf("a message whose payload is nil on the wire, decoded into a variable that held the attached form before: Verify returned %v, the payload is %x", err, holder.Payload), map[string]any{"key": k.name, "alg": k.alg.String(), "data": hx(d)})
+				}
+			}
 		}
 		var wg sync.WaitGroup
 		var mu sync.Mutex
